@@ -330,7 +330,7 @@ func c15TrustedIPs(c *Ctx, up *world.Upstream) {
 					}
 				}()
 				req.RemoteAddr = remote
-				got = px.P.isTrustedIP(req)
+				got = verifIsTrustedIP(px.P, req)
 			}()
 			cs := c15IPCase{Nets: set, Remote: remote, Expected: want, Observed: fmt.Sprintf("trusted=%v panic=%v", got, pan)}
 			if want {
@@ -344,7 +344,7 @@ func c15TrustedIPs(c *Ctx, up *world.Upstream) {
 				c.confirm("C15/trusted-ip-decision", fmt.Sprintf("trusted-ip %v: remote %s: expected trusted=%v, observed %v", set, remote, want, got), len(remote), cs,
 					func() (string, bool) {
 						req.RemoteAddr = remote
-						return "C15/trusted-ip-decision", px.P.isTrustedIP(req) != want
+						return "C15/trusted-ip-decision", verifIsTrustedIP(px.P, req) != want
 					})
 			}
 			if full {
@@ -373,8 +373,14 @@ func c15TrustedIPs(c *Ctx, up *world.Upstream) {
 		}
 		// every address of 10.1.0.0/16 in three notations
 		step := 1
-		if c.Quick() {
-			step = 1
+		if !verifHasIsTrustedIP {
+			// the decision function could not be located in the source (renamed away): every decision goes
+			// through the whole handler, the universe is thinned out and the run is not exhaustive
+			step = 97
+			c.Exhaustive = false
+			if si == 0 {
+				c.Note("no method (*OAuthProxy) ..trusted..(*http.Request) bool found: trusted-IP decisions are read off the handler, every 97th address only")
+			}
 		}
 		for x := 0; x < 65536; x += step {
 			a, b := byte(x>>8), byte(x)
@@ -406,7 +412,7 @@ func c15TrustedIPs(c *Ctx, up *world.Upstream) {
 						}
 					}()
 					reqH.Header.Set(hdrName, value)
-					got = pxH.P.isTrustedIP(reqH)
+					got = verifIsTrustedIP(pxH.P, reqH)
 				}()
 				cs := c15IPCase{Nets: set, Remote: hdrName + ": " + value, Expected: want, Observed: fmt.Sprintf("trusted=%v panic=%v", got, pan)}
 				if want {
@@ -418,13 +424,16 @@ func c15TrustedIPs(c *Ctx, up *world.Upstream) {
 					c.confirm("C15/trusted-ip-decision-header", fmt.Sprintf("trusted-ip %v, client address reported in %s: %q: expected trusted=%v, observed %v", set, hdrName, value, want, got), len(value), cs,
 						func() (string, bool) {
 							reqH.Header.Set(hdrName, value)
-							return "C15/trusted-ip-decision-header", pxH.P.isTrustedIP(reqH) != want
+							return "C15/trusted-ip-decision-header", verifIsTrustedIP(pxH.P, reqH) != want
 						})
 				}
 			}
 			hstep := 1
 			if c.Quick() {
 				hstep = 7 // every 7th address of the /16 (all boundary addresses are added below)
+			}
+			if !verifHasIsTrustedIP {
+				hstep = 97 * 7
 			}
 			probe := func(x int) {
 				a, b := byte(x>>8), byte(x)
@@ -475,7 +484,7 @@ func c15TrustedIPs(c *Ctx, up *world.Upstream) {
 			func() {
 				defer func() { pan = recover() }()
 				req.RemoteAddr = s
-				got = px.P.isTrustedIP(req)
+				got = verifIsTrustedIP(px.P, req)
 			}()
 			host, _, err := net.SplitHostPort(s)
 			var want bool
